@@ -1,11 +1,11 @@
 package main
 
 import (
-	"strconv"
 	"bytes"
 	"encoding/json"
 	"flag"
 	"fmt"
+	"strconv"
 	"sync"
 
 	lz4 "github.com/pierrec/lz4/v4"
